@@ -695,7 +695,7 @@ func c13Seqs(c *Ctx, r *lib.Rng) []c13Seq {
 	var steps []int
 	top := 18
 	if c13Deep(c) {
-		top = 22
+		top = 21
 	}
 	for p := 15; p <= top; p++ {
 		steps = append(steps, 1<<uint(p)-1, 1<<uint(p), 1<<uint(p)+1)
@@ -721,13 +721,13 @@ func c13Seqs(c *Ctx, r *lib.Rng) []c13Seq {
 	}
 	out = append(out, c13Seq{"blocks-random", blocks, 1})
 	out = append(out, c13Seq{"blocks-text", blocks, 2})
-	extra := c13N(c, 2, 14)
+	extra := c13N(c, 2, 10)
 	for i := 0; i < extra; i++ {
 		var sz []int
 		n := r.Range(1, maxMsgs)
 		budget := 2 << 20
 		if c13Deep(c) {
-			budget = 8 << 20
+			budget = 6 << 20
 		}
 		for j := 0; j < n && budget > 0; j++ {
 			var s int
@@ -848,7 +848,7 @@ func c13Streams(c *Ctx) error {
 	seqs := c13Seqs(c, r)
 	fullBudget := int64(4 << 20)
 	if c13Deep(c) {
-		fullBudget = 64 << 20
+		fullBudget = 24 << 20
 	}
 	for si, sq := range seqs {
 		mr := r.Fork()
@@ -904,7 +904,7 @@ func fpOf(b []byte) (int, uint64) {
 
 func c13Ckpt(c *Ctx) error {
 	r := c.Rng.Fork()
-	n := c13N(c, 42, 480)
+	n := c13N(c, 42, 360)
 	codecs := c13Codecs(c13Deep(c))
 	for i := 0; i < n; i++ {
 		cr := r.Fork()
